@@ -666,10 +666,12 @@ def fit_predict_degenerate_bounded_instance(pinned=False):
             F1 = slice(0, 1)
             y, init, it = y[F1], init[F1], 1
         # single precision observations / embeddings for every fourth scene (magnitudes inside the range of the type)
-        single = (not pinned) and inp['seed'] % 4 == 3 and data not in ('tiny', 'huge')
+        single = (not pinned) and (inp['seed'] % 4 == 3 or (model == 'cwmm' and inp['seed'] % 2 == 1)) and data not in ('tiny', 'huge')
         if single:
             y = y.astype(np.complex64 if cplx else np.float32)
             emb = emb.astype(np.float32)
+            if inp['seed'] % 8 == 7 or model == 'cwmm':
+                init = init.astype(np.float32)          # the whole pipeline in single precision (masks of a neural network as the start)
         try:
             with np.errstate(all='ignore'):
                 if model in ('gcacgmm', 'vmfcacgmm'):
